@@ -637,12 +637,17 @@ def same_mask(m1, m2):
         c = ctx()
         idx = [z3.Int("smk!%d" % d) for d in range(m1.ndim)]
         import os
-        nf = len(c.facts)
+        # the comparison only needs the element terms: axiom instances produced while building them are discarded again
+        nf, keys0 = len(c.facts), set(c.fact_keys)
         saved, c.binders = c.binders, [idx]
         try:
             e1, e2 = m1.elem(*idx), m2.elem(*idx)
         finally:
             c.binders = saved
+            for f_ in c.facts[nf:]:
+                c.defines.pop(f_.get_id(), None)
+            del c.facts[nf:]
+            c.fact_keys.intersection_update(keys0)
         if os.environ.get("PYVC_DEBUG") and not z3.simplify(e1).eq(z3.simplify(e2)):
             print("same_mask differs:", str(z3.simplify(e1))[:300], "||", str(z3.simplify(e2))[:300])
         return z3.simplify(e1).eq(z3.simplify(e2))
@@ -948,12 +953,14 @@ def _mono_pairs(kind, xr, rr, increasing_domain):
     if lst is None:
         lst = []
         setattr(c, "mono_" + kind, lst)
-    for (x2, r2) in lst:
+    # instances against the first applications (the bounds / constants set up at the start of a function) and against the most
+    # recent ones (the terms of the clause being evaluated): keeps the number of ground instances linear instead of quadratic
+    for (x2, r2) in (lst[:10] + lst[10:][-10:]):
         dom = increasing_domain(xr, x2)
         c.add_fact(z3.Implies(z3.And(dom, xr < x2), rr < r2))
         c.add_fact(z3.Implies(z3.And(dom, x2 < xr), r2 < rr))
         c.add_fact(z3.Implies(xr == x2, rr == r2))
-    if len(lst) < 40:
+    if len(lst) < 400:
         lst.append((xr, rr))
 
 
